@@ -113,14 +113,14 @@ func (o *OpenAPI3Importer) convertSpec(spec *openapi3.T) (string, error) {
 	// Cache all the encoded schema names
 	o.schemaNames = make(map[string]struct{})
 	for name := range spec.Components.Schemas {
-		sName := getSyslSafeName(name)
+		sName := getSyslSafeSchemaName(name)
 		o.schemaNames[sName] = struct{}{}
 	}
 
 	// Convert types
 	o.types = TypeList{}
 	for name, ref := range spec.Components.Schemas {
-		sName := getSyslSafeName(name)
+		sName := getSyslSafeSchemaName(name)
 		if _, found := o.types.Find(sName); !found {
 			if ref.Value == nil {
 				o.types.Add(NewStringAlias(sName))
@@ -265,7 +265,7 @@ func getAttrs(schema *openapi3.Schema) []string {
 }
 
 func (o *OpenAPI3Importer) existingTypeOrSyslSafeName(name string) string {
-	safeName := getSyslSafeName(name)
+	safeName := getSyslSafeSchemaName(name)
 
 	// If the safeName type exists use it
 	if _, found := o.schemaNames[safeName]; found {
